@@ -56,6 +56,7 @@ let st = ref init_state
 let topo = ref { fin = N0; inf = false }
 let env : n list option ref = ref None
 let dead = ref true
+let adopted = ref false
 
 let dump () =
   let ks = !st.kinds in
@@ -74,9 +75,17 @@ let fatal f =
 let outcome name = function
   | Fine (s, rc) ->
     st := s;
-    (match rc with RC_OK -> Printf.printf "%s rc=0 err=OK\n" name | RC_EINVAL -> Printf.printf "%s rc=-1 err=EINVAL\n" name);
+    (match rc with RC_OK -> Printf.printf "%s rc=0 err=OK\n" name | RC_EINVAL -> Printf.printf "%s rc=-1 err=EINVAL\n" name
+                 | RC_EPERM -> Printf.printf "%s rc=-1 err=EPERM\n" name);
     dump ()
   | Fatal f -> fatal f
+
+(* every state-changing public operation goes through the adopted-topology guard of the model *)
+let do_op name o =
+  let (out, ad) = guarded_step !adopted !env !st o in
+  adopted := ad; outcome name out
+
+let rec zeros n = if n <= 0 then [] else { k_cpuset = { fin = N0; inf = false }; k_eff = Z0; k_forced = Z0; k_rank = Z0; k_infos = []; k_arr = false } :: zeros (n - 1)
 
 let getres name show = function
   | G_OK a -> Printf.printf "%s rc=%s err=OK%s\n" name (fst (show a)) (snd (show a))
@@ -92,28 +101,57 @@ let () =
     if Array.length t > 0 then begin
       if t.(0) = "case" then begin
         let u = int_of_string t.(2) in
-        st := init_state; env := None; dead := false;
+        st := init_state; env := None; dead := false; adopted := false;
         let a = ref N0 in for _ = 1 to u do a := n_shift_add !a true done;
         topo := { fin = !a; inf = false };
+        Printf.printf "case %s\n" t.(1);
+        dump ()
+      end else if t.(0) = "casestate" then begin
+        (* state taken over from the implementation (kinds registered by an OS backend):
+           casestate name topo env alloc nk { set eff forced rankhex arr ninfos {name value} } *)
+        dead := false; adopted := false;
+        topo := (match parse_set t.(2) with Some s -> s | None -> failwith "topo");
+        env := (if t.(3) = "-" then None else Some (str_of_hex t.(3)));
+        let alloc = int_of_string t.(4) and nk = int_of_string t.(5) in
+        let pos = ref 6 in
+        let ks = List.init nk (fun _ ->
+          let p = !pos in
+          let ni = int_of_string t.(p + 5) in
+          let infos = List.init ni (fun i -> (str_of_hex t.(p + 6 + 2*i), str_of_hex t.(p + 7 + 2*i))) in
+          pos := p + 6 + 2 * ni;
+          { k_cpuset = (match parse_set t.(p) with Some s -> s | None -> failwith "set");
+            k_eff = z_of_int (int_of_string t.(p + 1)); k_forced = z_of_int (int_of_string t.(p + 2));
+            k_rank = (match n_of_hex t.(p + 3) with N0 -> Z0 | Npos q -> Zpos q);
+            k_infos = infos; k_arr = (t.(p + 4) = "1") }) in
+        st := { kinds = ks; tail = zeros (alloc - nk) };
         Printf.printf "case %s\n" t.(1);
         dump ()
       end else if not !dead then
       match t.(0) with
       | "env" -> env := (if t.(1) = "-" then None else Some (str_of_hex t.(1))); print_string "env\n"
-      | "reg" ->
+      | "reg" | "ireg" ->
         let cs = parse_set t.(1) in
         let forced = z_of_int (int_of_string t.(2)) in
         let flags = n_of_int (int_of_string t.(3)) in
         let infos = if t.(4) = "NULL" then None else
           Some (List.init (int_of_string t.(4)) (fun i -> (str_of_hex t.(5 + 2*i), str_of_hex t.(6 + 2*i)))) in
-        outcome "reg" (pub_register !env !st cs forced infos flags)
+        if t.(0) = "reg" then do_op "reg" (OpRegister (cs, forced, infos, flags))
+        else (match cs with
+          | None -> ()
+          | Some s ->
+            (match internal_register !st s forced infos flags with
+             | IOk s' -> outcome "ireg" (Fine (s', RC_OK))
+             | IEinval -> outcome "ireg" (Fine (!st, RC_EINVAL))
+             | IFatal f -> fatal f))
       | "restrict" ->
         (match parse_set t.(1) with
          | None -> ()
          | Some s ->
            let t' = bs_inter !topo s in
-           if bs_is_empty t' then (print_string "restrict rc=-1 err=EINVAL\n"; dump ())
-           else begin topo := t'; outcome "restrict" (Fine (restrict_state !env !st t', RC_OK)) end)
+           if !adopted then do_op "restrict" (OpRestrict t')
+           else if bs_is_empty t' then (print_string "restrict rc=-1 err=EINVAL\n"; dump ())
+           else begin topo := t'; do_op "restrict" (OpRestrict t') end)
+      | "adopt" -> st := adopt_state !st; adopted := true; outcome "adopt" (Fine (!st, RC_OK))
       | "getby" ->
         getres "getby" (fun i -> (string_of_int (int_of_nat i), "")) (get_by_cpuset !st (parse_set t.(1)) (n_of_int (int_of_string t.(2))))
       | "getnr" ->
@@ -121,9 +159,9 @@ let () =
       | "getinfo" ->
         getres "getinfo" (fun ((s, e), inf) -> ("0", Printf.sprintf " %s eff=%d ninfos=%d" (show_set s) (int_of_z e) (List.length inf)))
           (get_info !st (nat_of_int (int_of_string t.(1))) (n_of_int (int_of_string t.(2))))
-      | "rank" -> outcome "rank" (Fine (rank_state !env !st, RC_OK))
-      | "dup" -> outcome "dup" (Fine (dup_state !st, RC_OK))
-      | "xml" -> outcome "xml" (xml_reload !env !st)
+      | "rank" -> do_op "rank" OpRank
+      | "dup" -> do_op "dup" OpDup
+      | "xml" -> do_op "xml" OpXml
       | _ -> ()
     end
   done with End_of_file -> ());
